@@ -21,3 +21,14 @@ Example C06_nonvacuous :
   let t := mkTriple 10 20 30 in
   in_range t 10 = false /\ fst (run_set (fun _ => true) t 10 5 [Tick]) = [[ORaise]; []].
 Proof. vm_compute. split; reflexivity. Qed.
+
+(* Known finding D23 (open): the range a parameter is checked against is the one held by the OBJECT that the event manager
+   stored last.  When two parameter responses are handled before the first dispatch of a NEW parameter has stored its object
+   (a user subscriber of that event awaits), each response creates its own object, and the dispatch that finishes last wins --
+   in the event-manager model (Model/EventMgr.v, proved against the whole of C13): two overlapping dispatches of one name, the
+   second finishing first, leave the FIRST value stored. *)
+From PV Require Import Model.EventMgr.
+Example C06_creation_race_refuted :
+  let sc : script := fun _ => (1%nat, None) in            (* one subscriber that suspends once and returns nothing *)
+  get_data 0 (data (erun sc [Subscribe 0 0; Spawn 0 10; Spawn 0 20; Resume 1; Resume 0])) = Some 10.
+Proof. vm_compute. reflexivity. Qed.
